@@ -1,0 +1,73 @@
+package accesscontroller
+
+import (
+	"bytes"
+	"encoding/hex"
+	"fmt"
+
+	logac "berty.tech/go-ipfs-log/accesscontroller"
+	"berty.tech/go-ipfs-log/identityprovider"
+)
+
+// VerifyEntryIdentity checks that the identity block carried by an entry really
+// is its author's, so that naming a writer's id is not enough to be taken for
+// that writer:
+//
+//   - the entry is signed with the identity's own public key (entry.Key);
+//   - that key signed the identity id (Signatures.ID);
+//   - the key the id stands for (the id is its hex form) vouches for the
+//     identity's public key (Signatures.PublicKey, over the hex form of the
+//     public key followed by the id signature, as the orbitdb identity provider
+//     signs it).
+//
+// The dependency's OrbitDBIdentityProvider.VerifyIdentity does not perform any of
+// these checks; access controllers call this before trusting identity.ID.
+func VerifyEntryIdentity(entry logac.LogEntry, p identityprovider.Interface) error {
+	identity := entry.GetIdentity()
+	if identity == nil {
+		return fmt.Errorf("entry has no identity")
+	}
+
+	if p == nil {
+		return fmt.Errorf("no identity provider to verify the identity with")
+	}
+
+	if identity.Signatures == nil || len(identity.Signatures.ID) == 0 || len(identity.Signatures.PublicKey) == 0 {
+		return fmt.Errorf("identity is not signed")
+	}
+
+	if keyed, ok := entry.(interface{ GetKey() []byte }); ok {
+		if key := keyed.GetKey(); len(key) > 0 && !bytes.Equal(key, identity.PublicKey) {
+			return fmt.Errorf("entry is not signed with the key of the identity it carries")
+		}
+	}
+
+	publicKey, err := p.UnmarshalPublicKey(identity.PublicKey)
+	if err != nil {
+		return fmt.Errorf("unable to read the identity public key: %w", err)
+	}
+
+	if ok, err := publicKey.Verify([]byte(identity.ID), identity.Signatures.ID); err != nil || !ok {
+		return fmt.Errorf("identity id is not signed by the identity key")
+	}
+
+	idKeyBytes, err := hex.DecodeString(identity.ID)
+	if err != nil {
+		return fmt.Errorf("identity id is not a key: %w", err)
+	}
+
+	idKey, err := p.UnmarshalPublicKey(idKeyBytes)
+	if err != nil {
+		return fmt.Errorf("unable to read the key the identity id stands for: %w", err)
+	}
+
+	signed := make([]byte, 0, len(identity.PublicKey)+len(identity.Signatures.ID))
+	signed = append(signed, identity.PublicKey...)
+	signed = append(signed, identity.Signatures.ID...)
+
+	if ok, err := idKey.Verify([]byte(hex.EncodeToString(signed)), identity.Signatures.PublicKey); err != nil || !ok {
+		return fmt.Errorf("identity key is not vouched for by the key of the identity id")
+	}
+
+	return nil
+}
